@@ -305,6 +305,15 @@ def values_equal(kind, got, want):
     return got == want or (want.lower() in ("true", "false") and got == want.lower())
 
 
+def language_in_use(p):
+    """the language that selects files and separators: Language, or under Language=Auto the one given with LanguageAuto ('en' while none is known)"""
+    lang = p["Language"][1]
+    if lang != "Auto":
+        return lang
+    la = p.get("LanguageAuto", ("err", ""))
+    return la[1] if la[0] == "ok" and la[1] not in ("", "Auto") else "en"
+
+
 def separator_pairs(lang_value, dec):
     """allowed (DecimalSeparators, BlockSeparators) for Language=lang_value, DecimalSeparator=dec after a derivation"""
     lc = lang_value.lower()
@@ -522,28 +531,42 @@ def judge(history, run, ctx, st=None):
         ignore = {n}
         if n == "Language":
             ignore.add("LanguageAuto")                           # setting Language to Auto re-initialises LanguageAuto (documented in prefs.rs)
-        if n in ("Language", "DecimalSeparator"):
-            ignore.update(("DecimalSeparators", "BlockSeparators"))
+        if n in ("Language", "LanguageAuto", "DecimalSeparator"):
+            ignore.update(("DecimalSeparators", "BlockSeparators"))     # derived from the decimal mark and the language in use
         side = diff_p(p, p2, ignore)
         if side:
             add("side-effect", "%s changed %s" % (n if n in SPECIAL else kind, ",".join(side[:3])), i,
                 "Ok set_preference(%r, %r) also changed: %s" % (n, v[:80], "; ".join("%s %r -> %r" % (m, p[m], p2[m]) for m in side[:5])), True)
             break
-        if n in ("Language", "DecimalSeparator") and "DecimalSeparators" in p2 and "Language" in p2 and "DecimalSeparator" in p2:
+        if n in ("Language", "LanguageAuto", "DecimalSeparator") and "DecimalSeparators" in p2 and "Language" in p2 and "DecimalSeparator" in p2:
             old = (p["DecimalSeparators"][1], p["BlockSeparators"][1])
             new = (p2["DecimalSeparators"][1], p2["BlockSeparators"][1])
             lang_now, dec_now = p2["Language"][1], p2["DecimalSeparator"][1]
-            if dec_now not in ("Auto", ",", ".") or (lang_now == "Auto" and dec_now == "Auto"):
-                allowed = {old}                                 # documented: custom separators / nothing known yet -> left alone
+            lang_auto = p2.get("LanguageAuto", ("err", ""))[1] if p2.get("LanguageAuto", ("err",))[0] == "ok" else ""
+            if dec_now not in ("Auto", ",", "."):
+                allowed = {old}                                 # documented: custom separators are left alone
+            elif lang_now == "Auto":
+                # Language=Auto: the language in use is the one given with LanguageAuto, or not known yet.  The documentation leaves open
+                # whether the separators follow LanguageAuto (C10's subject), so both readings are accepted; only a change of an explicit
+                # decimal mark must show
+                allowed = set()
+                if dec_now in (",", "."):
+                    allowed |= separator_pairs("Auto", dec_now)
+                if lang_auto and lang_auto != "Auto":
+                    allowed |= separator_pairs(lang_auto, dec_now)
+                if dec_now == "Auto":
+                    allowed |= separator_pairs("en", dec_now)    # fallback language while nothing is known
+                if not (n == "DecimalSeparator" and p[n] != p2[n] and dec_now in (",", ".")):
+                    allowed |= {old}
             else:
                 allowed = separator_pairs(lang_now, dec_now)
-                if p[n] == p2[n]:
-                    allowed = allowed | {old}                   # the value did not change: nothing has to be recomputed
+                if p[n] == p2[n] or (language_in_use(p) == language_in_use(p2) and p["DecimalSeparator"] == p2["DecimalSeparator"]):
+                    allowed = allowed | {old}                   # neither the decimal mark nor the language in use changed: nothing has to be recomputed
             if st:
                 st.count("separator_derivations_judged")
             if new not in allowed:
-                add("derived-separators", "after %s" % n, i, "Language=%r DecimalSeparator=%r: DecimalSeparators/BlockSeparators are %r, documented derivation allows %r" % (
-                    lang_now, dec_now, new, sorted(allowed)), True)
+                add("derived-separators", "after %s" % n, i, "Language=%r LanguageAuto=%r DecimalSeparator=%r: DecimalSeparators/BlockSeparators are %r, documented derivation allows %r" % (
+                    lang_now, lang_auto, dec_now, new, sorted(allowed)), True)
                 break
         # independence, limited to what is documented
         role = ctx.role.get(n, "other")
